@@ -47,6 +47,13 @@ type World struct {
 	// only one of them afterwards). Maintained by Maint for plain-API checks.
 	TieSeen   map[string]bool
 	TrackTies int // number of keys to track (0 = off)
+	// DupSeen: "cf/key@version" names that had two stored copies at the end of some
+	// step (value-log GC re-inserts live entries under their own internal key, so the
+	// stale copy and the rewritten one coexist until a compaction drops one of them).
+	DupSeen map[string]bool
+	// InvSeen: (cf/key) names for which a lower version sat in a container searched
+	// before one holding a higher version (see invKeys), at the end of some step.
+	InvSeen map[string]bool
 }
 
 var worldSeq int
@@ -237,8 +244,30 @@ func (w *World) Maint(op sim.Op) (handled bool) {
 			w.TieSeen = map[string]bool{}
 		}
 		tieKeys(w, w.TrackTies, w.TieSeen)
+		w.noteDups()
+		if w.InvSeen == nil {
+			w.InvSeen = map[string]bool{}
+		}
+		invKeys(w, w.TrackTies, w.InvSeen)
 	}
 	return handled
+}
+
+func (w *World) noteDups() {
+	if w.DupSeen == nil {
+		w.DupSeen = map[string]bool{}
+	}
+	for _, cf := range cfs {
+		for ki := 0; ki < w.TrackTies && ki < len(keyNames); ki++ {
+			n := map[uint64]int{}
+			for _, cp := range w.DB.VerifLocate(cf, []byte(keyNames[ki])) {
+				n[cp.Version]++
+				if n[cp.Version] == 2 {
+					w.DupSeen[fmt.Sprintf("%d/%s@%d", cf, keyNames[ki], cp.Version)] = true
+				}
+			}
+		}
+	}
 }
 
 func (w *World) maint(op sim.Op) bool {
@@ -542,6 +571,49 @@ func readErrSig(w *World, api string, err error, cfKey ...[]byte) map[string]str
 		cps := w.DB.VerifLocate(kv.ColumnFamily(cfKey[0][0]), cfKey[1])
 		if len(cps) >= 2 {
 			sig["competing_copies"] = "yes"
+		}
+		// Sharper, when the copies that point into a missing value-log file can be
+		// named: the known defects need a second copy OF THE SAME VERSION (the one GC
+		// rewrote), now or earlier in the run. A version whose only copy ever stored
+		// points into a file that is gone is a value GC dropped.
+		files := map[[2]uint32]bool{}
+		all, _ := w.DB.VerifVlogFiles()
+		for _, f := range all {
+			files[[2]uint32{uint32(f.Bucket), uint32(f.FileID)}] = true
+		}
+		perVer := map[uint64]int{}
+		for _, cp := range cps {
+			perVer[cp.Version]++
+		}
+		dangling := 0
+		for _, cp := range cps {
+			if cp.Meta&kv.BitValuePointer == 0 {
+				continue
+			}
+			var vp kv.ValuePtr
+			vp.Decode(cp.Value)
+			if files[[2]uint32{uint32(vp.Bucket), uint32(vp.Fid)}] {
+				continue
+			}
+			dangling++
+			if perVer[cp.Version] < 2 && !w.DupSeen[fmt.Sprintf("%d/%s@%d", cfKey[0][0], cfKey[1], cp.Version)] {
+				sig["competing_copies"] = "no"
+				sig["sole_copy_of_version_dangling"] = "yes"
+			}
+		}
+		if sig["sole_copy_of_version_dangling"] == "yes" {
+			// GC's own liveness lookup goes through the first-hit read path: after a
+			// re-insertion put lower versions of the key into a newer container, it
+			// sees one of those instead of the record it is judging (known, root C02).
+			name := fmt.Sprintf("%d/%s", cfKey[0][0], cfKey[1])
+			now := map[string]bool{}
+			if w.TrackTies > 0 {
+				invKeys(w, w.TrackTies, now)
+			}
+			sig["version_order_inverted"] = "no"
+			if now[name] || w.InvSeen[name] {
+				sig["version_order_inverted"] = "yes"
+			}
 		}
 		below := map[uint64]int{}
 		for _, cp := range cps {
